@@ -1761,13 +1761,54 @@ def hashmap_keys(e, args, fr, m):
     return IterV([ValRef(k) for k, _ in mp.pairs], 0, 'perm' if e.flags.get('symbolic_order') else 'val')
 
 
+def _elements_of(e, fr, x):
+    """the elements an IntoIterator value yields (Vec, Option, another iterator)"""
+    v = e.force(x)
+    if isinstance(v, IterV):
+        if v.kind == 'val':
+            return list(v.items[v.pos:])
+        return lazy_drain(e, fr, _as_lazy(e, v))[0]
+    if isinstance(v, Adt) and v.ty == 'Option':
+        return [v.fields[0]] if v.variant == 'Some' else []
+    if isinstance(v, VecV):
+        return list(v.items)
+    return ref_items(e, x)
+
+
 @contract(r'^<.* as Iterator>::flatten$')
 def iter_flatten(e, args, fr, m):
     it = e.force(args[0])
     out = []
-    for x in _iter_items(e, it):
-        out += ref_items(e, x)
+    src = _iter_items(e, it) if isinstance(it, IterV) and it.kind == 'val' else lazy_drain(e, fr, _as_lazy(e, it))[0]
+    for x in src:
+        out += _elements_of(e, fr, x)
     return IterV(out, 0, 'val')
+
+
+@contract(r'^<.* as Iterator>::flat_map::<.*>$')
+def iter_flat_map(e, args, fr, m):
+    """evaluated when the adaptor is built (the closures of this crate are pure; a consumer that stops early would not call the
+    closure for the remaining elements -- stated as an assumption of every claim that uses this contract)"""
+    it = e.force(args[0])
+    src = _iter_items(e, it) if isinstance(it, IterV) and it.kind == 'val' else lazy_drain(e, fr, _as_lazy(e, it))[0]
+    out = []
+    for x in src:
+        out += _elements_of(e, fr, call_closure(e, fr, args[1], [x]))
+    return IterV(out, 0, 'val')
+
+
+@contract(r'^<(?:FlatMap|Flatten)<.*> as Iterator>::next$')
+def iter_flat_next(e, args, fr, m):
+    it = e.load(args[0])
+    if it.pos >= len(it.items):
+        return NONE
+    e.store(args[0], IterV(it.items, it.pos + 1, it.kind, it.extra))
+    return some(it.items[it.pos])
+
+
+@contract(r'^<(?:FlatMap|Flatten)<.*> as IntoIterator>::into_iter$')
+def iter_flat_into_iter(e, args, fr, m):
+    return args[0]
 
 
 @contract(r'^<.* as Iterator>::sum::<(usize|u32|u64|i32)>$')
@@ -1943,6 +1984,50 @@ def fs_read_to_string(e, args, fr, m):
     if ent['contents'] is None:
         return err(Adt('IoError', None, (Str('stream did not contain valid UTF-8'),)))
     return ok(ent['contents'])
+
+
+@contract(r'^File::open::<.*>$|^fs::File::open::<.*>$')
+def fs_file_open(e, args, fr, m):
+    """read-only open (File::create / OpenOptions have no contract on purpose: they can change the file system)"""
+    key = _path_key(e, args[0])
+    w = _world(e)
+    if key not in w.files:
+        return err(Adt('IoError', None, (Str('No such file or directory (or it is a directory)'),)))
+    e.extra.setdefault('opened', []).append(key)
+    return ok(Adt('File', None, (Str(key),)))
+
+
+@contract(r'^<(?:&)?File as (?:io::)?Read>::read_to_string$|^<BufReader<File> as (?:io::)?Read>::read_to_string$')
+def fs_file_read_to_string(e, args, fr, m):
+    """appends the whole content to the buffer (as documented) and returns the number of bytes read"""
+    f = e.load(args[0])
+    while isinstance(f, Adt) and f.ty == 'BufReader':
+        f = e.load(f.fields[0])
+    if not (isinstance(f, Adt) and f.ty == 'File'):
+        raise Unsupported('read_to_string on %r' % (f,))
+    key = f.fields[0].v
+    w = _world(e)
+    ent = w.files[key]
+    e.extra.setdefault('reads', []).append(key)
+    if ent['contents'] is None:
+        return err(Adt('IoError', None, (Str('stream did not contain valid UTF-8'),)))
+    buf = e.load(args[1])
+    new = ent['contents'] if (buf.concrete and buf.v == '') else concat(buf, ent['contents'])
+    e.store(args[1], new)
+    c = ent['contents']
+    n = Int(len(c.v.encode('utf-8')), 'usize') if c.concrete else Int(z3.Int2BV(z3.Length(c.z()), 64), 'usize')
+    return ok(n)
+
+
+@contract(r'^BufReader::<File>::new$')
+def bufreader_new(e, args, fr, m):
+    return Adt('BufReader', None, (args[0],))
+
+
+@contract(r'^String::clear$')
+def string_clear(e, args, fr, m):
+    e.store(args[0], Str(''))
+    return UNIT
 
 
 # ------------------------------------------------------------------------------------------------ symbolic file names
